@@ -154,8 +154,11 @@ class Real:
     def file_doc(self) -> Optional[Dict[str, Any]]:
         if not os.path.exists(self.path):
             return None
-        with open(self.path, "r", encoding="utf8") as fh:
-            return canon_doc(json.load(fh, object_pairs_hook=list))
+        try:  # the file is the implementation's: whatever is in it is an observation, never a harness error
+            with open(self.path, "r", encoding="utf8") as fh:
+                return canon_doc(json.load(fh, object_pairs_hook=list))
+        except Exception as ex:  # noqa: BLE001
+            return {"unreadable": f"{type(ex).__name__}: {ex}"[:200]}
 
     def connection(self):
         """One connection: returns post(path, body) -> (status, body) bound to one fresh handler,
@@ -370,9 +373,12 @@ def judge_step(v: Verdict, ref: refp.RefPairings, i, op, before, after, code, bo
 EDGE_UUIDS = [0, 1, (1 << 128) - 1, 0x0123456789ABCDEF0123456789ABCDEF, 0xA << 124, 0xFFFFFFFF << 96]
 
 
+N_SPELL = 10  # every family uuid.UUID() accepts: dashed lower/upper/mixed, bare 32 hex digits lower/upper/mixed, braced, urn:uuid:
+
+
 def spell(rng, u: int, how: Optional[int] = None) -> bytes:
     s = str(uuidlib.UUID(int=u))
-    how = rng.randrange(8) if how is None else how
+    how = rng.randrange(N_SPELL) if how is None else how
     if how == 0:
         r = s
     elif how == 1:
@@ -387,8 +393,12 @@ def spell(rng, u: int, how: Optional[int] = None) -> bytes:
         r = "{" + s.upper() + "}"
     elif how == 6:
         r = "".join(c.upper() if rng.random() < 0.5 else c for c in s)
-    else:
+    elif how == 7:
         r = "URN:UUID:".lower() + s.upper().replace("-", "")
+    elif how == 8:
+        r = s.upper().replace("-", "")
+    else:
+        r = "".join(c.upper() if rng.random() < 0.5 else c for c in s.replace("-", ""))
     return r.encode()
 
 
@@ -447,10 +457,10 @@ def boundary_scripts(ctx: Ctx) -> List[List[Dict[str, Any]]]:
         ops.append(req(B + base, LIST_BODY))  # even: not admin
         out.append(ops)
     # every spelling: add, list, remove with another spelling, list
-    for how in range(8):
+    for how in range(N_SPELL):
         out.append([sA, req(A, add_body(spell(rng, B, how), kb, b"\x00")), req(A, LIST_BODY),
-                    req(A, remove_body(spell(rng, B, (how + 3) % 8))), req(A, LIST_BODY)])
-        out.append([setup(spell(rng, A, how), ka), req(A, LIST_BODY), req(A, add_body(spell(rng, A, (how + 1) % 8), kc, b"\x01")), req(A, LIST_BODY)])
+                    req(A, remove_body(spell(rng, B, (how + 3) % N_SPELL))), req(A, LIST_BODY)])
+        out.append([setup(spell(rng, A, how), ka), req(A, LIST_BODY), req(A, add_body(spell(rng, A, (how + 1) % N_SPELL), kc, b"\x01")), req(A, LIST_BODY)])
     # last admin removed while others remain; with a second admin; self removal
     users = [req(A, add_body(spell(rng, B, 1), kb, b"\x00")), req(A, add_body(spell(rng, C, 0), kc, b"\x00"))]
     out.append([sA] + users + [req(A, remove_body(spell(rng, A, 1))), req(A, LIST_BODY), req(B, LIST_BODY)])
